@@ -210,6 +210,22 @@ CLAIMED["C20"] = (
     "abstract path enumeration over a finite switch domain, sibling count agreement, dependency templates (static analysis)",
     "DESIGN.md section 5, C20",
 )
+CLAIMED["C08"] = (
+    "Shape agreement by a sequence-shape abstract interpreter, symbolic in the streamer configuration: for the regular and "
+    "the xDMA layout the symbolic field list and the symbolic generated value list (per streamer: pointers, one value per "
+    "spatial dim, per temporal dim twice, option-conditioned entries; then per-streamer transpose/broadcast/extension "
+    "entries) have the same shape, data-dependent branches never change the number of values, and values of provenance "
+    "bounds/strides/operands sit in the segments named bound/tstride/sstride/ptr; accelerator tails (gemmx K/N/M, packed "
+    "registers, ceil(n/4) shifts, n multipliers; alu; phs; hwpe_mult) and launch values match the declared tuples, "
+    "hard-wired lists after instantiating the default configuration; padding with 1/0 and the reuse collapse are guarded; "
+    "extension CSR tables have csr_length entries; values named like fields sit at their field's position; per-tensor "
+    "lists are replicated only under their own length test. Segments whose length depends on the operation (gemmx "
+    "per-channel rescale lists) are reported as undecided, not as violations. Does not decide numeric contents. F-5 and F-7 "
+    "are listed known findings.",
+    "Python list-building semantics as modelled by sa/shape.py (append/extend/+/splat/comprehensions/loops/if-merging); option tests and length aliases normalised; the xDMA system type is tied to the xDMA accelerator class (frozen).",
+    "sequence-shape abstract interpretation with symbolic domains and label provenance; must-facts for guards (static analysis)",
+    "DESIGN.md section 5, C08",
+)
 NOT_APPLICABLE = {
     "C02": "address-stream equality is integer arithmetic over runtime strides/bounds; no structural necessary condition carries weight (DESIGN.md section 5, C02)",
 }
